@@ -38,6 +38,8 @@ def run_C10(ctx, rep):
     byods_rules.check_L23(ctx, rep, ['eqrel_ternary', 'eqrel_ind', 'ceqrel_ind'])
     rep.floor('L23', 5)
     byods_rules2.check_L22(ctx, rep, 'eqrel_ternary')
+    byods_rules2.check_L28(ctx, rep, ['eqrel_ind', 'ceqrel_ind', 'eqrel_ternary', 'union_find'])
+    rep.floor('L28', 1)
     for sc in ('eqrel_ternary', 'eqrel_ind', 'ceqrel_ind'):
         byods_rules2.check_L24(ctx, rep, sc)
     rep.floor('L22', 1); rep.floor('L24', 1)
@@ -61,6 +63,8 @@ def run_C11(ctx, rep):
     byods_rules.check_L23(ctx, rep, ['trrel_binary_ind', 'trrel_ternary_ind', 'trrel_binary', 'binary_rel'])
     rep.floor('L23', 8)
     byods_rules2.check_L22(ctx, rep, 'trrel_ternary_ind')
+    byods_rules2.check_L29(ctx, rep, 'trrel_binary_ind')
+    rep.floor('L29', 3)
     for sc in ('trrel_ternary_ind', 'trrel_binary_ind'):
         byods_rules2.check_L24(ctx, rep, sc)
     rep.floor('L22', 2); rep.floor('L24', 1)
@@ -83,6 +87,9 @@ def run_C12(ctx, rep):
     byods_rules.check_L23(ctx, rep, ['adaptor::bin_rel_to_ternary', 'trrel_union_find_binary_ind'])
     rep.floor('L23', 10)
     byods_rules2.check_L22(ctx, rep, 'adaptor::bin_rel_to_ternary')
+    byods_rules2.check_L29(ctx, rep, 'trrel_union_find_binary_ind')
+    byods_rules2.check_L28(ctx, rep, ['trrel_union_find_binary_ind', 'trrel_union_find'])
+    rep.floor('L29', 3)
     for sc in ('adaptor::bin_rel_to_ternary', 'adaptor::bin_rel::'):
         byods_rules2.check_L24(ctx, rep, sc)
     byods_rules2.check_L25(ctx, rep, 'trrel_union_find_binary_ind', 'trrel_union_find_binary_ind::TrRelDelta')
@@ -138,8 +145,14 @@ def run_C04(ctx, rep):
 
 
 def run_C15(ctx, rep):
+    # the converse clause: every well-formed program of the corpus compiles
+    failed = ctx.meta.get('corpus_failed') or []
+    rep.inst('W.corpus', 'corpus families rejected by the macros: %s' % (failed or 'none'))
+    for m in failed:
+        rep.viol('W', 'corpus family ' + m, 'well-formed-rejected',
+                 'well-formed programs of the corpus no longer compile: ' + (ctx.meta.get('corpus_first_error', {}).get(m) or 'see stderr'))
     n = witness_rules.run_witnesses(ctx, rep, ctx.tier)
-    rep.floor('W', 135 if ctx.tier == 'quick' else 680, 'compile witnesses')
+    rep.floor('W', 150 if ctx.tier == 'quick' else 720, 'compile witnesses')
     return {'cov': {'exhaustive': True, 'witness_tier': ctx.tier}}
 
 
@@ -161,7 +174,7 @@ def run_C07(ctx, rep):
 
 
 def run_C08(ctx, rep):
-    gen_driver.run_twins(ctx, rep, lambda n, k: n.replace('_par', '') in ('t_mac_sugar', 't_macn_sugar', 't_mach_sugar'), floors={'T.L': 6})
+    gen_driver.run_twins(ctx, rep, lambda n, k: n.replace('_par', '') in ('t_mac_sugar', 't_macn_sugar', 't_mach_sugar', 't_macd_sugar'), floors={'T.L': 8})
     gen_driver.run_tv(ctx, rep, only_tags=['twin'], floors={'R1': 40})
     witness_rules.run_witnesses(ctx, rep, ctx.tier, kinds=('macro_self_rec', 'macro_mutual_rec', 'macro_head_rec'))
     macro_rules.check_M2(ctx, rep)
@@ -243,7 +256,7 @@ PROPS = {
         'technique': 'static translation validation: typed-HIR reconstruction of generated rule code vs. independently parsed rule text; no execution',
     },
     'C15': {
-        'run': run_C15, 'corpus': False, 'facts': False, 'level': 'other',
+        'run': run_C15, 'level': 'other',
         'explanation': 'compile-fail witnesses decided by the stable Rust compiler (nothing is run): for each ill-formedness kind of the property '
                        '(undeclared relation in head / body / agg / negation, wrong arity in the same four positions, aggregation or negation '
                        'inside the own recursive stratum - directly, through a 2-cycle and a 3-cycle in EVERY order of the rules, rebinding by '
